@@ -223,10 +223,22 @@ func (x *c19Ctx) randomCall(r *vlib.Rand, e gnet.Engine) {
 		if derr != nil {
 			return
 		}
+		// the connection given may already be closed, or be closed by its owner while the registration is under way:
+		// the single result is then an error (or a usable connection), never an empty value
+		how := "open"
+		switch r.Intn(5) {
+		case 0:
+			how = "closed-before"
+			_ = nc.Close()
+		case 1:
+			how = "closed-meanwhile"
+			go func() { _ = nc.Close() }()
+		}
 		ch, err := e.Register(gnet.NewNetConnContext(context.Background(), nc))
 		x.expectErr("Register(conn)", before, x.state.Load(), err)
 		if err == nil {
 			x.awaitResult("Register(conn)", ch, nil)
+			x.key("Register(conn)|given-connection-" + how)
 		} else {
 			_ = nc.Close()
 		}
